@@ -49,8 +49,12 @@ S2Scope ==
         H  == IF d = 2 THEN Pick(seed, 3, S2Cells2) ELSE Pick(seed, 3, S2Cells3)
         T  == 1 + ((Hh(seed, 1, 3) % 4) \div 3)
         dl == Pick(seed, 8, Deltas)
-    IN  [id |-> seed, d |-> d, H |-> H, ppp |-> MaskBits(Hh(seed, 4, 4), d), S |-> Pick(seed, 5, <<1, 2>>),
-         fr |-> [f \in 1..T |-> [i \in 1..n |-> [k \in 1..d |-> Rnd(seed, 40 * f + i, k, 0 - 1, H[k][k] + 1)]]],
+        pp == MaskBits(Hh(seed, 4, 4), d)
+        f0 == [f \in 1..T |-> [i \in 1..n |-> [k \in 1..d |-> Rnd(seed, 40 * f + i, k, 0 - 1, H[k][k] + 1)]]]
+    IN  [id |-> seed, d |-> d, H |-> H, ppp |-> pp, S |-> Pick(seed, 5, <<1, 2>>),
+         fr0 |-> f0,      \* every other seed: each particle displaced by -2..3 whole cell vectors per periodic axis
+         fr |-> IF Hh(seed, 2, 7) % 2 = 0 THEN f0
+                ELSE [f \in 1..T |-> LoUnwrap(f0[f], H, pp, LAMBDA i, k : Rnd(seed, 90 + i + 7 * f, k, 0 - 2, 3))],
          types |-> [i \in 1..n |-> IF i <= K THEN i ELSE Rnd(seed, 30, i, 1, K)],
          sig |-> [a \in 1..K |-> [b \in 1..K |-> Pick(seed + 3 * a + 11 * b, 6, Widths)]],
          rn |-> dl[1], rd |-> dl[2], nd |-> Rnd(seed, 9, 9, 4, IF d = 2 THEN 18 ELSE 12),
@@ -59,6 +63,7 @@ S2Scope ==
 \* the comparison is strict, such a neighbour does not contribute
 S2EdgeScope ==
   { [id |-> 0, d |-> 2, H |-> Tri2(32, 0, 32), ppp |-> p, S |-> 4,
+     fr0 |-> << << <<4, 4>>, <<11, 4>>, <<4, 11>>, q, <<4 + 32, 4 - 3>> >> >>,
      fr |-> << << <<4, 4>>, <<11, 4>>, <<4, 11>>, q, <<4 + 32, 4 - 3>> >> >>,
      types |-> <<1, 1, 2, 1, 2>>, sig |-> << <<w, <<1, 4>>>>, <<<<1, 2>>, w>> >>,
      rn |-> 1, rd |-> 2, nd |-> 4, savegr |-> FALSE] :
@@ -77,9 +82,12 @@ S2ShearRaw ==
         T  == 2 + (Hh(seed, 1, 3) % 2)
         dl == Pick(seed, 8, <<<<1, 5>>, <<1, 4>>, <<1, 2>>>>)
         ty == [i \in 1..n |-> IF i <= K THEN i ELSE Rnd(seed, 30, i, 1, K)]
-        base == [id |-> 20000 + seed, d |-> d, H |-> ShearH(seed, d, 1),
-                 ppp |-> (IF Hh(seed, 4, 4) % 3 = 0 THEN MaskBits(Hh(seed, 4, 5), d) ELSE [k \in 1..d |-> 1]), S |-> Pick(seed, 5, <<1, 2>>),
-                 fr |-> [f \in 1..T |-> [i \in 1..n |-> [k \in 1..d |-> Rnd(seed, 40 * f + i, k, 0 - 1, 8)]]],
+        pp == IF Hh(seed, 4, 4) % 3 = 0 THEN MaskBits(Hh(seed, 4, 5), d) ELSE [k \in 1..d |-> 1]
+        f0 == [f \in 1..T |-> [i \in 1..n |-> [k \in 1..d |-> Rnd(seed, 40 * f + i, k, 0 - 1, 8)]]]
+        base == [id |-> 20000 + seed, d |-> d, H |-> ShearH(seed, d, 1), ppp |-> pp, S |-> Pick(seed, 5, <<1, 2>>),
+                 fr0 |-> f0,
+                 fr |-> IF seed % 3 # 0 THEN f0
+                        ELSE [f \in 1..T |-> LoUnwrap(f0[f], ShearH(seed, d, f), pp, LAMBDA i, k : Rnd(seed, 90 + i + 7 * f, k, 0 - 2, 3))],
                  types |-> ty,
                  sig |-> [a \in 1..K |-> [b \in 1..K |-> Pick(seed + 3 * a + 11 * b, 6, <<<<1, 5>>, <<3, 10>>, <<1, 2>>, <<1, 1>>, <<2, 5>>>>)]],
                  rn |-> dl[1], rd |-> dl[2], nd |-> Rnd(seed, 9, 9, 8, 16), savegr |-> ((Hh(seed, 2, 2) % 4) = 0),
@@ -105,19 +113,27 @@ Diamond8 == << <<0, 0, 0>>, <<0, 2, 2>>, <<2, 0, 2>>, <<2, 2, 0>>, <<1, 1, 1>>, 
 TetA == << <<1, 1, 1>>, <<1, 0 - 1, 0 - 1>>, <<0 - 1, 1, 0 - 1>>, <<0 - 1, 0 - 1, 1>> >>
 Cluster(c0, a, sg, far) ==       \* centre + regular tetrahedron of half-edge a (mirror image for sg = -1) + far atoms
   <<c0>> \o [x \in 1..4 |-> VAdd(c0, VScale(a * sg, TetA[x]))] \o far
+\* displacement of particle i by whole cell vectors: -2..3 per axis (applied along periodic axes only)
+UnwN(seed, i, k) == Rnd(seed, 90 + i, k, 0 - 2, 3)
 TetraFixed ==
-  { [id |-> 0, kind |-> "diamond", H |-> Tri3(4 * a, 4 * a, 4 * a, 0, 0, 0), ppp |-> <<1, 1, 1>>, S |-> s,
-     pos |-> [i \in 1..8 |-> VAdd(VScale(a, Diamond8[i]), t)]] :
-       a \in {1, 2}, s \in {1, 2}, t \in {<<0, 0, 0>>, <<1, 0 - 2, 5>>} }
+  { LET H == Tri3(4 * a, 4 * a, 4 * a, 0, 0, 0)
+        p0 == [i \in 1..8 |-> VAdd(VScale(a, Diamond8[i]), t)]
+    IN  [id |-> 0, kind |-> "diamond", H |-> H, ppp |-> <<1, 1, 1>>, S |-> s, pos0 |-> p0,
+         pos |-> IF u = 0 THEN p0 ELSE LoUnwrap(p0, H, <<1, 1, 1>>, LAMBDA i, k : UnwN(17 * u + a, i, k))] :
+       a \in {1, 2}, s \in {1, 2}, t \in {<<0, 0, 0>>, <<1, 0 - 2, 5>>}, u \in {0, 1, 2} }
   \cup
-  { [id |-> 0, kind |-> "cluster", H |-> Tri3(31, 31, 31, 0, 0, 0), ppp |-> p, S |-> 1, pos |-> Cluster(<<4, 5, 6>>, a, sg, far)] :
+  { [id |-> 0, kind |-> "cluster", H |-> Tri3(31, 31, 31, 0, 0, 0), ppp |-> p, S |-> 1, pos0 |-> Cluster(<<4, 5, 6>>, a, sg, far),
+     pos |-> IF sg = 1 THEN Cluster(<<4, 5, 6>>, a, sg, far)
+             ELSE LoUnwrap(Cluster(<<4, 5, 6>>, a, sg, far), Tri3(31, 31, 31, 0, 0, 0), p, LAMBDA i, k : UnwN(a, i, k))] :
        a \in {1, 2}, sg \in {1, 0 - 1}, p \in {<<0, 0, 0>>, <<1, 1, 1>>},
        far \in { << >>, << <<12, 12, 12>> >>, << <<12, 12, 12>>, <<13, 0, 1>>, <<0 - 3, 9, 9>> >> } }
 TetraRnd ==
   { LET n == 5 + (Hh(seed, 1, 1) % 4)
         H == Pick(seed, 3, << Tri3(7, 7, 9, 0, 0, 0), Tri3(9, 7, 7, 2, 0 - 3, 1), Tri3(5, 5, 5, 0, 0, 0), Tri3(11, 9, 7, 0, 0, 0) >>)
-        base == [id |-> seed, kind |-> "rnd", H |-> H, ppp |-> MaskBits(Hh(seed, 4, 4), 3), S |-> Pick(seed, 5, <<1, 2, 4>>),
-                 pos |-> [i \in 1..n |-> [k \in 1..3 |-> Rnd(seed, 40 + i, k, 0 - 1, H[k][k])]]]
+        pp == MaskBits(Hh(seed, 4, 4), 3)
+        p0 == [i \in 1..n |-> [k \in 1..3 |-> Rnd(seed, 40 + i, k, 0 - 1, H[k][k])]]
+        base == [id |-> seed, kind |-> "rnd", H |-> H, ppp |-> pp, S |-> Pick(seed, 5, <<1, 2, 4>>), pos0 |-> p0,
+                 pos |-> IF Hh(seed, 2, 7) % 2 = 0 THEN p0 ELSE LoUnwrap(p0, H, pp, LAMBDA i, k : UnwN(seed, i, k))]
     IN  \* every third case is a two-frame trajectory: another configuration in a cell with the same box
         \* lengths and other tilt factors (the routine must take positions AND cell of frame 2 from frame 2)
         IF seed % 3 = 0
@@ -126,10 +142,12 @@ TetraRnd ==
         ELSE base : seed \in 1..NSeeds }
 \* a perturbed diamond cell: one atom displaced on the fine grid
 TetraPert ==
-  { [id |-> seed, kind |-> "pert", H |-> Tri3(12, 12, 12, 0, 0, 0), ppp |-> <<1, 1, 1>>, S |-> 3,
-     pos |-> [i \in 1..8 |-> IF i = 1 + (seed % 8)
+  { LET p0 == [i \in 1..8 |-> IF i = 1 + (seed % 8)
                              THEN VAdd(VScale(3, Diamond8[i]), [k \in 1..3 |-> Rnd(seed, 7, k, 0 - 1, 1)])
-                             ELSE VScale(3, Diamond8[i])]] : seed \in 1..(IF Thorough THEN 400 ELSE 60) }
+                             ELSE VScale(3, Diamond8[i])]
+    IN  [id |-> seed, kind |-> "pert", H |-> Tri3(12, 12, 12, 0, 0, 0), ppp |-> <<1, 1, 1>>, S |-> 3, pos0 |-> p0,
+         pos |-> IF seed % 2 = 0 THEN p0 ELSE LoUnwrap(p0, Tri3(12, 12, 12, 0, 0, 0), <<1, 1, 1>>, LAMBDA i, k : UnwN(seed, i, k))] :
+      seed \in 1..(IF Thorough THEN 400 ELSE 60) }
 TetraScope == TetraFixed \cup TetraRnd \cup TetraPert
 
 (***************************************************************************)
@@ -234,6 +252,9 @@ InvS2FrameCells == IsM("s2") =>
    /\ LoFramesWellFormed(c, Len(c.fr))
    /\ \A f \in 1..Len(c.fr) : S2Vol(P[f]) = S2Vol(P[1]) /\ P[f].H = LoFrameH(c, f) /\ P[f].types = LoFrameTypes(c, f)
    /\ c.id > 20000 => ShearMatters(c)
+\* unwrapped coordinates: whole cell vectors along periodic axes change no minimum-image vector
+InvS2UnwrapInvariant == IsM("s2") =>
+   \A f \in 1..Len(c.fr) : LoUnwrapInvariant(LoFrameH(c, f), c.ppp, c.fr[f], c.fr0[f])
 
 TeRT == TeTable(c.H, c.ppp, c.pos)
 TeTT == TeTieTable(c.H, c.ppp, c.pos)
@@ -247,6 +268,8 @@ InvTeRegularIsPerfect == IsM("tetra") => /\ TeRegularIsPerfect(TeRT, TeTT, TeDg)
                                          /\ TeHas2 => TeRegularIsPerfect(TeRT2, TeTT2, TeDg2)
 InvTeFourAreNearest   == IsM("tetra") => /\ TeFourAreNearest(TeRT, TeTT, TeDg)
                                          /\ TeHas2 => TeFourAreNearest(TeRT2, TeTT2, TeDg2)
+\* unwrapped coordinates: whole cell vectors along periodic axes change no bond vector
+InvTeUnwrapInvariant == IsM("tetra") => LoUnwrapInvariant(c.H, c.ppp, c.pos, c.pos0)
 \* frames of a trajectory: same particle number and box lengths, lower-triangular cells
 InvTeFrames == (IsM("tetra") /\ TeHas2) => /\ Len(c.pos2) = Len(c.pos) /\ IsLowerTri(c.H2)
                                             /\ \A k \in 1..3 : c.H2[k][k] = c.H[k][k]
@@ -282,7 +305,7 @@ InvGyAxisKinds      == (IsM("gyr") /\ c.kind = "axis") => GyAxisAligned(c.base)
 (***************************************************************************)
 CaseS2 ==
   LET P == S2Frames  T == Len(c.fr)  n == Len(c.types) IN
-  [ m |-> "s2", id |-> c.id, d |-> c.d, H |-> c.H, ppp |-> c.ppp, S |-> c.S, fr |-> c.fr, types |-> c.types,
+  [ m |-> "s2", id |-> c.id, d |-> c.d, H |-> c.H, ppp |-> c.ppp, S |-> c.S, fr |-> c.fr, fr0 |-> c.fr0, types |-> c.types,
     sig |-> c.sig, rn |-> c.rn, rd |-> c.rd, nd |-> c.nd, savegr |-> c.savegr,
     Hs  |-> [f \in 1..T |-> LoFrameH(c, f)], tys |-> [f \in 1..T |-> LoFrameTypes(c, f)],
     contrib |-> [f \in 1..T |-> [i \in 1..n |-> S2Contrib(P[f], i)]],
@@ -301,7 +324,7 @@ TetraRow(rt, tt, dg, i) ==
         q |-> IF tie THEN "tie" ELSE TetraTermB(b) ]
 CaseTetra ==
   LET rt == TeRT  tt == TeTT
-      one == [ m |-> "tetra", id |-> c.id, kind |-> c.kind, H |-> c.H, ppp |-> c.ppp, S |-> c.S, pos |-> c.pos,
+      one == [ m |-> "tetra", id |-> c.id, kind |-> c.kind, H |-> c.H, ppp |-> c.ppp, S |-> c.S, pos |-> c.pos, pos0 |-> c.pos0,
                rows |-> [i \in 1..Len(c.pos) |-> TetraRow(rt, tt, TeDg, i)] ]
   IN  IF TeHas2
       THEN LET rt2 == TeRT2  tt2 == TeTT2 IN
